@@ -252,9 +252,13 @@ where
         let min_order = self.get_position(b);
         let max_order = self.get_position(a);
         if min_order >= max_order {
+            #[cfg(feature = "verif-hooks")]
+            crate::verif::hit(crate::verif::Site::acyclic_no_reorder);
             // Order is already correct
             return Ok(());
         }
+        #[cfg(feature = "verif-hooks")]
+        crate::verif::hit(crate::verif::Site::acyclic_reorder);
 
         // Get the nodes reachable from `b` and the nodes that can reach `a`
         // between `min_order` and `max_order`
